@@ -90,11 +90,12 @@ fn c04_competitor_records() {
     let mut cases = 0;
     // header-only records at, below and beyond the tip, with hashes sorting before and after the active ones
     { cases += 1; let mut d = simple_dir(&chain);
-      for (i, h) in [1u64, 3, 4, 5, 9].iter().enumerate() { for fill in [0x00u8, 0xff] {
-          let mut hash = [fill; 32]; hash[0] = i as u8;
-          d.recs.push(IndexRec { hash, version: 1, height: *h, status: ST_HEADER_ONLY, ntx: 0, file: 0, offset: 0 }); } }
+      // hashes sorting before (00..) and after (ff..) every active hash; statuses: header-only, failed without data
+      for (i, h) in [1u64, 3, 4, 5, 9].iter().enumerate() { for fill in [0x00u8, 0xff] { for (j, st) in [ST_HEADER_ONLY, 1, 34, 66, 33, 98].iter().enumerate() {
+          let mut hash = [fill; 32]; hash[31] = (i * 8 + j) as u8;
+          d.recs.push(IndexRec { hash, version: 0x2000_0800, height: *h, status: *st, ntx: 0, file: 0, offset: 0 }); } } }
       d.write();
-      cmp_delivery(suite, "C04:header_only_records_never_delivered", "header-only records (status VALID_TREE) at heights 1,3,4,5,9", fetch_all(&d, "bitcoin", 5, false), &want);
+      cmp_delivery(suite, "C04:header_only_records_never_delivered", "header-only / failed-without-data records (status 2,1,34,66,33,98) at heights 1,3,4,5,9, hashes sorting before and after", fetch_all(&d, "bitcoin", 5, false), &want);
       let got = drive(d.path(), "bitcoin", 0, None, false);
       let n = got.as_ref().map(|v| v.iter().filter(|e| matches!(e, Event::Block(..))).count()).unwrap_or(0);
       cases += 1;
@@ -255,6 +256,14 @@ fn c17_open_files_bounded() {
         for (s, e) in [(0u64, None), (5, Some(17)), (7, None)] {
             let mut d = DataDir::new();
             for h in 0..n { d.add(f(h), h, &chain[h as usize], ST_ACTIVE); }
+            // stale fork blocks with data stored at the tail of earlier files, at heights far above the file's own
+            // blocks; their hashes sort BEFORE the active block of that height, so the active chain wins the height
+            for (k, sh) in [(0u64, 13u64), (1, 19), (2, 23)] {
+                let mut stale = BlockSpec::new(chain[(sh - 1) as usize].hash(), 5000 + sh as u32, vec![TxSpec::new(vec![TxIn::coinbase(9)], vec![TxOut::new(1, vec![0x51])])]);
+                loop { if stale.hash() < chain[sh as usize].hash() { break; } stale.nonce += 1; }
+                let off = d.put_block(f(k), 0xd9b4bef9, &stale.ser(), &[]);
+                d.recs.push(IndexRec { hash: stale.hash(), version: 1, height: sh, status: 3 | 8, ntx: 1, file: f(k), offset: off });
+            }
             d.write();
             let log = Arc::new(Mutex::new(Vec::new()));
             let opts = options(d.path(), "bitcoin", s, e, false, Box::new(Recorder { log }));
